@@ -196,6 +196,22 @@ func c06cases(thorough bool) []c06case {
 			}
 		}
 	}
+	// the undone activity cannot be fetched: the sender's own embedded copy must not be trusted
+	for _, n := range []int{1, 2} {
+		forged := Emb("Like", undone, "actor", Erin, "object", Note1) // the real one (by Carol) is unreachable
+		objs := L{forged}
+		if n == 2 {
+			objs = L{Emb("Like", undone+"-ok", "actor", Erin, "object", Note1), forged}
+		}
+		c := c06case{family: "undo", name: fmt.Sprintf("Undo of an unreachable activity, embedded copy claims the sender as actor, n=%d", n),
+			body: Doc("Undo", RAct, "actor", Erin, "object", val1(objs)), wantCB: boolp(false), mustRefuse: true}
+		c.tweak = func(a *ap.App) {
+			a.Callbacks = ap.CBWrapped
+			delete(a.Remote, undone)
+			a.PutRemote(undone+"-ok", Doc("Like", undone+"-ok", "actor", Erin, "object", Note1))
+		}
+		cs = append(cs, c)
+	}
 	// ---- (d) block check ----
 	actorAlpha := []struct {
 		name string
